@@ -136,7 +136,7 @@ DoRun(ev) ==
                      /\ mode' = "skip" /\ UNCHANGED <<cov, sess, cur, stats>>
     ELSE IF ev.e = "Exec" THEN
         LET a == AssembleExec(ev.toks)
-        IN IF ~a[1] THEN (IF ~ev.ok THEN UNCHANGED <<divs, cov, sess, cur, mode, stats>>
+        IN IF ~a[1] THEN (IF ~ev.ok /\ Mismatch(sess, ev) = {} THEN /\ cov' = cov \cup {<<"exec", "invalid-token">>} /\ UNCHANGED <<divs, sess, cur, mode, stats>>
                           ELSE /\ divs' = Append(divs, Div("exec accepted an invalid token", <<>>, ev)) /\ mode' = "skip"
                                /\ UNCHANGED <<cov, sess, cur, stats>>)
            ELSE LET exp == Exec(sess, a[2])
